@@ -9,7 +9,7 @@ CLAIMED = {}
 def claim(i, engine, technique, text, note):
     CLAIMED[i] = (engine, technique, text, note, '2/' + i)
 
-claim('C01', 'E1', 'stateless DFS over interleavings of subscribe / publish / broker-delivery threads of the real node, with delivery faults (drop, duplicate, delay) and history removal as bounded environment deviations',
+claim('C01', 'E1', 'stateless DFS over interleavings of subscribe / publish / broker-delivery threads of the real node, with delivery faults (drop, duplicate, delay, late redelivery) and history removal as bounded environment deviations; the periodic position check of an established subscription with a late-answering stream-top read; exhaustive merge-step enumeration (mergex)',
       "Every interleaving (up to the stated preemption/deviation bound) of a subscribing client (fresh, recovering, positioning-only, server-side), a publisher and a faulty PUB/SUB delivery thread is executed on the real Node/Client/Hub/MemoryBroker code; the offsets in the client's frame log are checked for strict increase, absence of unexplained gaps and silence after an insufficient-state end.",
       'One node, one channel, 2-3 concurrent publications, Memory broker; Redis PUB/SUB is represented only by the fault alphabet of the delivery thread.')
 claim('C12', 'E1+E2', 'stateless DFS over thread interleavings (preemption-bounded, HB-state caching) of the real writer; exhaustive operation sequences of the real queue vs slice model',
@@ -35,13 +35,13 @@ claim('C35', 'E2+E1', 'complete enumeration of every precomputed partition count
 E1_NOTE = 'One node (Memory broker/presence), 1-2 connections, 2-3 concurrent operations; scheduling points are lock/atomic/channel/timer operations plus harness doubles; verification-build constants (lock tables) shrunk; Redis paths not executed.'
 def e1(i, what, text):
     claim(i, 'E1', 'stateless DFS over thread interleavings of the real Node/Client/Hub code under a controlled scheduler (preemption + timer-first + environment-answer deviations bounded, HB-state caching): ' + what, text, E1_NOTE)
-e1('C04', 'client/server subscribe, unsubscribe, disconnect with sync/async callbacks and the 5 s wait gate', 'Every interleaving up to the bound of the listed operation threads on one connection; after settling a marker publication must reach the connection iff it reports itself subscribed, and the hub must hold exactly one generation-matched routing entry iff subscribed.')
+e1('C04', 'client/server subscribe, unsubscribe, disconnect with sync/async callbacks and the 5 s wait gate; environment answers: a broker that holds the lock stripe for 7 s of virtual time, a broker that fails the leave publication, per-channel batching with the channel left and entered again', 'Every interleaving up to the bound of the listed operation threads on one connection; after settling a marker publication must reach the connection iff it reports itself subscribed, and the hub must hold exactly one generation-matched routing entry iff subscribed.')
 e1('C05', 'close (Disconnect / Node.Disconnect / transport close / write error / slow consumer / stale timer) placed at every point of connect with server-side subscriptions, subscribe, map subscribe (state, stream, live, ephemeral), shared-poll subscribe and track, presence tick; harness subfail: a subscription attempt (client command, connect-time, Node.Subscribe) whose backend calls (broker History / Subscribe / PublishJoin, presence AddPresence incl. stored-but-acknowledgement-lost) fail, one (quick) or two (thorough) per attempt', 'Every close point within the bound; after settling the node must hold no hub, routing, presence or client-state entry of the closed connection and the connection/subscription gauges must be back to their earlier values.')
 e1('C06', 'presence ticks against subscribe/unsubscribe/close, one channel (connops) and three presence channels of one connection with two of them ending during one tick (presencemulti, delay bound 2-3); harness subfail: every single / pair of failing backend answers during one subscription attempt, incl. requests refused after the presence add (reject-unrecovered)', 'Every interleaving within the bound; at quiescence the channel presence contains the connection iff it holds a subscription with presence, and presence stats count distinct clients/users.')
-e1('C07', 'subscribe completion against unsubscribe/disconnect, observed by a second subscriber', 'Every interleaving within the bound; the observer\'s join/leave pushes for the actor must alternate starting with join, end consistently with the final subscription state, and match the number of established/ended subscriptions.')
-e1('C08', 'connect, alive ticks, unsubscribe, server disconnect, transport close', 'Every interleaving within the bound; the callback log must show disconnect at most once and after connect, no alive after disconnect and one unsubscribe callback per established subscription that ended. Node shutdown: a connect racing Shutdown (delay-bounded schedule exploration under two default thread orders, oldest-first and newest-first) and connection attempts after Shutdown through the generic API, the SSE handler and the HTTP-stream handler must never end up connected (WebSocket upgrade path not driven).')
+e1('C07', 'subscribe completion against unsubscribe/disconnect, observed by a second subscriber; a presence backend that may fail the removal when the subscription ends', 'Every interleaving within the bound; the observer\'s join/leave pushes for the actor must alternate starting with join, end consistently with the final subscription state, and match the number of established/ended subscriptions.')
+e1('C08', 'connect, alive ticks, unsubscribe, server disconnect, transport close; a broker that may fail the leave publication when a subscription ends', 'Every interleaving within the bound; the callback log must show disconnect at most once and after connect, no alive after disconnect and one unsubscribe callback per established subscription that ended. Node shutdown: a connect racing Shutdown (delay-bounded schedule exploration under two default thread orders, oldest-first and newest-first) and connection attempts after Shutdown through the generic API, the SSE handler and the HTTP-stream handler must never end up connected (WebSocket upgrade path not driven).')
 e1('C10', 'publications / joins of other connections against subscribe and unsubscribe (client and server side, positioned and not)', 'Every interleaving within the bound; on the connection\'s frame log no publication/join/leave for the channel may appear outside a subscription bracket. Harness bracketbatch adds per-channel batching (MaxSize / MaxDelay / both / FlushLatestPublication / none) x ReplyWithoutQueue x positioned on the client and server paths with the virtual clock driving the batch timers, and an unsubscribe command that arrives while the subscribe is still in flight (asynchronous callback).')
-claim('C02', 'E2+E1', 'exhaustive enumeration of channel histories (publish/remove/TTL/meta-TTL over a virtual clock, depth-bounded) x subscribe probes on the real Node against a reference log; stateless DFS (preemption bound 1-2) over concurrent recoveries and publications with and without UseSingleFlight',
+claim('C02', 'E2+E1', 'exhaustive enumeration of channel histories (publish/remove/TTL/meta-TTL over a virtual clock, depth-bounded) x subscribe probes on the real Node against a reference log; exhaustive enumeration of the recovery merge step (history answer x buffered publications x withheld markers) against a reference; stateless DFS (preemption bound 1-2) over concurrent recoveries and publications with and without UseSingleFlight',
       'Every history up to the stated depth is built on a real node under the virtual clock and probed with every (offset, epoch, limit, filter, reject flag) combination; recovered=true must mean the exact admitted suffix, recovered=false no publications. Harness recoverrace: two recovering subscribers (same / different positions and epochs) and a publisher interleaved within the bound, each reply must be exact or refused.',
       'One channel, Memory broker, histories of depth <= 4-5, HistorySize 1-3.')
 claim('C03', 'E2+E1', 'exhaustive enumeration of channel histories x cache-recovery probes (client and server-forced, cache-empty handler variants, delta) on the real Node against a reference log; stateless DFS (preemption bound 1-2) over a cache-recovery subscribe overlapping a Node.History read under UseSingleFlight',
